@@ -1168,4 +1168,7 @@ if __name__ == '__main__':
     hs["C09"] = run_c04
     hs["C17"] = run_c17
     hs["XPLAY"] = run_xplay
+    import rec2_probes      # round-7 case kinds (rec2_probes.KINDS) in front of these properties' own dispatch
+    for _p in ("C04", "C05", "C09", "C17", "C18"):
+        hs[_p] = rec2_probes.in_front_of(hs[_p])
     main(hs)
